@@ -542,8 +542,8 @@ def run_classifier(chk, rng, thorough):
     from ..impl_classifier import ClassifierImpl
     INV = ["TypeOK", "DerivedInv", "Refinement", "OccSum"]
 
-    def consts(n, rinit="derive", rhook="recompute", b=2, maxrow=None):
-        return dict(N=n, K=2, B=b, InVals={0, 2}, XVals={0, 1, 2} if thorough else {0, 2},
+    def consts(n, rinit="derive", rhook="recompute", b=2, maxrow=None, invals=(0, 2)):
+        return dict(N=n, K=2, B=b, InVals=set(invals), XVals={0, 1, 2} if thorough else {0, 2},
                     MaxRow=(4 if thorough else 2) if maxrow is None else maxrow, RInit=rinit, RHook=rhook)
 
     def mc(name, c, must_fail=False):
@@ -563,7 +563,7 @@ def run_classifier(chk, rng, thorough):
 
     mc("N2", consts(2))
     if thorough:
-        mc("N3", consts(3, b=1, maxrow=2))
+        mc("N3", consts(3, b=1, maxrow=2, invals=(0, 1, 2)))      # single-sample batches: any integer counts
     # what the constructor / the load hook must do, as rules TLC rejects
     mc("rule constructor leaves zeros", consts(2, rinit="zeros", maxrow=0), must_fail=True)
     mc("rule no load hook", consts(2, rhook="none", maxrow=0), must_fail=True)
